@@ -59,3 +59,7 @@ claim("C05", "DESIGN.md 3/C05",
       "configs-as-programs x tables x 9 front-end variants: tables of 1..4 rows (thorough 0..6) with/without z and lat/lon, one-context programs with every window over a grid that puts rows exactly on starting and on ending (closed, half-open, empty, inverted), two-context programs over every ordered pair of coarse windows, 1-2 streams, probe / neighbour- / time- / depth- / position-dependent tests; every configured (context, stream, test) must yield exactly one result with the reference row mask and the flags of the direct call on those rows (the probe also checks the arguments it received)",
       "reference = the real test function called directly (refinement statement); XarrayStream with time as a non-coordinate variable ignores windows (known finding, 4 signatures); region subsetting not judged",
       TECH_TREE)
+claim("C06", "DESIGN.md 3/C06",
+      "event graph over histories of ContextResults fed to the real collect_results: every sequence of <=3 (thorough 4) events over every contiguous window (incl. empty and all-covering) x 3 (stream,test) keys with pairwise-disjoint same-key windows, in every order, with axis arrays present and absent, through list and dict form; plus real stream runs over disjoint windows in every permutation of the yield order; compared with an order-free reference built from the event set (confluence)",
+      "4 rows (thorough 5); data/axis values on uncovered rows not judged",
+      TECH_GRAPH)
